@@ -38,6 +38,9 @@ def get_line_col_at_position(
     text: str, pos: int
 ) -> Tuple[Optional[int], Optional[int], Optional[str], Optional[str]]:
     lines = text.splitlines(keepends=True)
+    if not lines:
+        # Empty input has a single empty line
+        lines = [""]
 
     if pos > len(text):
         # Position out of range
